@@ -119,6 +119,11 @@ func PartialCompactionProfile(r *Rng, cfg *Config, gp *GenParams) {
 	if gp.MinBatches < 6 {
 		gp.MinBatches = 6
 	}
+	if gp.Children && !gp.Nested {
+		// the splice point is computed on the top-level collection and then
+		// applied, clamped, at every nesting level
+		gp.Nested = r.Chance(1, 2)
+	}
 }
 
 type genState struct {
@@ -350,7 +355,7 @@ func (g *genState) batch() *model.Batch {
 			} else if !r.Chance(1, 6) { // else: empty child batch = creation only
 				cb.Ops = g.ops(nil, 4, false)
 			}
-			if g.gp.Nested && r.Chance(1, 4) {
+			if g.gp.Nested && r.Chance(1, 3) {
 				nn := nestedNames[r.Intn(len(nestedNames))]
 				var sub *model.Coll
 				if ch := g.tree.Ch[name]; ch != nil {
@@ -360,6 +365,11 @@ func (g *genState) batch() *model.Batch {
 					cb.DelChildren = append(cb.DelChildren, nn)
 				} else {
 					cb.Children = append(cb.Children, model.ChildBatch{Name: nn, B: &model.Batch{Ops: g.ops(nil, 3, false)}})
+					if !childOnly && r.Chance(1, 2) {
+						// only the grandchild is written: it collects more
+						// persisted segments than the child it lives in
+						cb.Ops = nil
+					}
 				}
 			}
 			b.Children = append(b.Children, model.ChildBatch{Name: name, B: cb})
